@@ -583,6 +583,28 @@ impl Prop for C01 {
             preload.reverse();
             ctx.count("reach.grammar_program_session");
         }
+        // (every op of such a session is written to the in-flight file first: the call that dies is a short one)
+        let mut announce_session = false;
+        // pool (b): nesting that is spread over user functions — each body stays below the evaluator's cap,
+        // the calls multiply it (self-recursive or mutually recursive bodies 100-250 parentheses deep)
+        if preload.is_empty() && rng.chance(1, 25) {
+            let d = rng.pick(&[100usize, 200, 250, 255]);
+            let (o, c) = ("(".repeat(d), ")".repeat(d));
+            let lines = match rng.below(3) {
+                0 => vec![format!("10 DEF FN F(X) = {o}FN F(X){c}"), "20 PRINT FN F(1)".to_string()],
+                1 => vec![
+                    format!("10 DEF FN F(X) = {o}FN G(X){c}"),
+                    format!("20 DEF FN G(X) = {o}FN F(X){c}"),
+                    "30 PRINT FN F(1)".to_string(),
+                ],
+                _ => vec![format!("10 DEF FN F(X) = {o}FN F(X + 1) * (X < 20){c}"), "20 PRINT FN F(1) : PRINT FN F(1)".to_string()],
+            };
+            preload = lines.into_iter().map(Op::Line).collect();
+            preload.push(Op::Line("RUN".into()));
+            preload.reverse();
+            ctx.count("fault.hostile_text.deep_bodies_calling_each_other");
+            announce_session = true;
+        }
         for _ in 0..k.max_ops {
             let before = s.state();
             let op = match (before, preload.pop()) {
@@ -594,7 +616,7 @@ impl Prop for C01 {
                 (_, None) => choose(rng, &k, before, ctx),
             };
             ops.push(op.clone());
-            if ctx.announce_all || is_dangerous(&op) {
+            if ctx.announce_all || announce_session || is_dangerous(&op) {
                 ctx.announce(&Case { ops: ops.clone() });
             }
             count_fault(&op, before, &s, ctx, &mut m);
